@@ -19,6 +19,7 @@ def jobs_for(rng, tier):
                                  "--ttl", "1", "--end", rng.choice(["drop", "drop", "leak"]),
                                  "--flushpct", str(rng.choice([14, 14, 6, 3])),
                                  "--maximages", "1500" if tier == "quick" else "4000"] + ["--sessions", str(rng.choice([1, 1, 2, 3]))]))
+    jobs += ce.full_device_jobs(rng, 8 if tier == "quick" else 48)
     return jobs
 
 
